@@ -15,6 +15,7 @@ ap.add_argument('--no-suite', action='store_true')
 ap.add_argument('--seed', default='1')
 ap.add_argument('--only')
 ap.add_argument('--scale', default='1.0')
+ap.add_argument('--keep', help='copy replay files of the mutant run into this directory')
 a = ap.parse_args()
 
 base = '/dev/shm' if os.path.isdir('/dev/shm') else tempfile.gettempdir()
@@ -52,4 +53,8 @@ finally:
     shutil.rmtree(work, ignore_errors=True)
     # replays written while checking a mutant do not belong to the real tree
     for p in a.property:
+        if a.keep and os.path.isdir(f'/verif/replays/{p}'):
+            os.makedirs(a.keep, exist_ok=True)
+            for f in os.listdir(f'/verif/replays/{p}'):
+                shutil.copy(f'/verif/replays/{p}/{f}', os.path.join(a.keep, f'{p}-{f}'))
         shutil.rmtree(f'/verif/replays/{p}', ignore_errors=True)
